@@ -131,7 +131,7 @@ package analysis
 // verified subset): assumed to be a function of the constant. Its safety is a C18 matter.
 //@ func fetchConstComment
 //@   pure
-//@   trusted
+//@   trusted pin=819705618629c3e0
 
 // the constant named nm of package pa makes the named type N an enum
 //@ pred enumConst(pa *packages.Package, nm string, N *types.Named) bool =
@@ -253,7 +253,7 @@ package analysis
 // subset): assumed to be a function of the package and the type
 //@ func fetchStructComments
 //@   pure
-//@   trusted
+//@   trusted pin=a345947de3bd83e8
 
 // the analysis table never holds a nil node
 // ... and the union node stored for a named type carries that name
@@ -277,11 +277,15 @@ package analysis
 //@   ensures !ctx.isInExtern ==> has(an.Types, typ) && an.Types[typ] == result
 
 //@ func (*Analysis).handleStructFields
-//@   props C11 C12
+//@   props C09 C11 C12
 //@   requires tableOK(an) && ctxOK(ctx) && typ != nil
 //@   modifies keys(an.Types)
 //@   ensures tableOK(an)
-//@   loop for.1 invariant tableOK(an)
+//@   -- C09: every field that is not embedded yields an entry carrying exactly its variable and its tag
+//@   ensures forall j int :: 0 <= j && j < typ.NumFields() && !typ.Field(j).Embedded() ==> (exists k int :: 0 <= k && k < len(result) && result[k].Field == typ.Field(j) && result[k].Tag == typ.Tag(j) && result[k].Type != nil)
+//@   loop for.1 invariant tableOK(an) && 0 <= i
+//@   loop for.1 invariant forall j int :: 0 <= j && j < i && !typ.Field(j).Embedded() ==> (exists k int :: 0 <= k && k < len(out) && out[k].Field == typ.Field(j) && out[k].Tag == typ.Tag(j) && out[k].Type != nil)
+//@   loop for.1 invariant isnil(out) || (fresh(out) && allocated(out))
 
 //@ func (*Analysis).createType
 //@   props C11 C12
@@ -312,7 +316,7 @@ package analysis
 // Keys are (non nil) named types, enums are real nodes. What the maps contain is the business of
 // fetchPkgEnums / fetchPkgUnions (C10, C11) and of the bounded harness of fetchEnumsAndUnions.
 //@ func fetchEnumsAndUnions
-//@   trusted
+//@   trusted pin=861a43170c45d712
 //@   ensures forall N *types.Named :: has(result1, N) ==> result1[N] != nil
 //@   ensures forall N *types.Named :: has(result2, N) ==> is(N, *types.Named) && allocated(result2[N])
 
